@@ -784,7 +784,44 @@ def h_compressed_segment(sym):
         sym.goal('packed')
 
 
+def _quat_cases():
+    """Special quaternions: every tie pattern for the largest component, negated, unnormalised, tiny components."""
+    import itertools
+    out = []
+    for k in (1, 2, 3, 4):
+        for idx in itertools.combinations(range(4), k):
+            for signs in itertools.product((1, -1), repeat=k):
+                q = [0.0] * 4
+                for i, sg in zip(idx, signs):
+                    q[i] = float(sg)
+                out.append(q)
+    out += [[0.1, -0.2, 0.3, -0.9273618495495703], [-0.8, 0.2, -0.5, 0.26457513110645906], [2.0, 0.0, 0.0, -2.0], [1e-3, -1e-3, 0.3, 0.2],
+            [0.70710678, 0.70710678, 1e-9, 0.0], [0.5, 0.5, 0.5, -0.5000001], [3.0, 4.0, 0.0, 0.0], [-1e-6, 0.0, 0.0, 1.0]]
+    return out
+
+
+def h_quat_roundtrip(sym):
+    """The composite claim of the statement on a solver-chosen member of a fixed list of special quaternions (all tie patterns
+    for the largest component, negated, unnormalised): compress fits 32 bits and decompress(compress(q)) is the same rotation with
+    every component within two quantisation steps.  The list is concrete because both functions are numpy code (the bit-precise
+    all-input claims are the Engine B harnesses); labelled symbolic=False."""
+    cases = _quat_cases()
+    q = cases[sym.choice('case', len(cases))]
+    n = math.sqrt(sum(x * x for x in q))
+    qn = [x / n for x in q]
+    c = int(enc.compress_quaternion(list(q)))
+    assert 0 <= c < 2 ** 32, 'compressed quaternion does not fit 32 bits'
+    d = [float(x) for x in enc.decompress_quaternion(c)]
+    step = 2.0 / 511 / math.sqrt(2)
+    same = all(abs(d[i] - qn[i]) <= step for i in range(4))
+    neg = all(abs(d[i] + qn[i]) <= step for i in range(4))
+    assert same or neg, f'decompress(compress({q})) = {d} is not the same rotation within two quantisation steps of {qn}'
+    sym.goal('roundtrip')
+
+
 HARNESSES = [
+    Harness('quaternion_roundtrip[special cases]', h_quat_roundtrip, goals=('roundtrip',), symbolic=False, timeout=(300, 600),
+            note='composite round trip on a fixed list of special quaternions chosen by the solver (numpy code runs concretely)'),
     SmtHarness('fp16', h_fp16, _fp16_replay, goals=('float-path',), timeout=(300, 600)),
     SmtHarness('fp16-signed', h_fp16, _fp16_replay, quick=dict(signed=True), goals=('float-path',), timeout=(300, 600)),
 ] + [SmtHarness(f'lh_angle[{k}]', h_lh_angle, _lh_replay, quick=dict(offset=k), goals=('angles-decoded',), timeout=(600, 1200),
